@@ -392,7 +392,7 @@ def check_progress(chk, states, scratch):
         experiment.runtime.monitor.CreateMonitor = orig
 
 
-def check_interleavings(chk, reports, scratch):
+def check_interleavings(chk, reports, scratch, cov_key="monitor_interleavings_executed"):
     """spec -> code: CheckStatus runs concurrently with the controller.  For every state in which a check may begin
     and every controller action that may happen meanwhile, at every point where the monitor calls into the controller
     without holding its lock, the value the REAL CheckStatus writes must be one the specification allows for that
@@ -458,7 +458,7 @@ def check_interleavings(chk, reports, scratch):
             shutil.rmtree(exp.instanceDirectory.location, ignore_errors=True)
     finally:
         experiment.runtime.monitor.CreateMonitor = orig
-    chk.cov["monitor_interleavings_executed"] = chk.cov.get("monitor_interleavings_executed", 0) + runs
+    chk.cov[cov_key] = chk.cov.get(cov_key, 0) + runs
     chk.sample({"interleaving_case": {"n": n, "given": list(given), "begin_state": st0, "action": [act, arg], "allowed": sorted(ok_vals)}}, limit=6)
 
 
@@ -577,7 +577,7 @@ def run(tier):
     lreports = [x for x in r["cases"] if "st0" in x]
     if len(lreports) < 500 or not any(max(x["iters0"]) == 2 for x in lreports):
         raise MachineryError("TLC emitted only %d CheckStatus reports with loops" % len(lreports))
-    check_interleavings(chk, lreports, chk.scratch)
+    check_interleavings(chk, lreports, chk.scratch, cov_key="loop_interleavings_executed")
     chk.cov["rule"] = ("weight cases: every assignment of the grid (ten-thousandths incl. negative, >1, truncation-sensitive values, missing, "
                        "malformed) to <=3 stages, emitted by TLC with the specified result; progress cases: every reachable state of the "
                        "Progress.tla state machine for the small grid; loops: every reachable state of the state machine with one stage hosting a DoWhile "
